@@ -26,7 +26,7 @@ func init() {
 		realVsStub: map[string]string{
 			"cmd/textmapper.startLS, ls.Server, compiler, parsers/tm, status": "real code",
 			"go.lsp.dev/protocol dispatch and handlers (Cancel/Async/Reply)":   "real code",
-			"go.lsp.dev/jsonrpc2 conn, stream, framing":                        "real code, plus one yield call inserted before conn.writeMu.Lock() in a scratch copy of the module",
+			"go.lsp.dev/jsonrpc2 conn, stream, framing, handlers":              "real code, plus two seams in a scratch copy of the module: a yield call before conn.writeMu.Lock(), and a wrapper around each call's cancellable context whose Done() is a yield point",
 			"zap logger":                                                       "real, sink redirected to /dev/null",
 			"stdin/stdout (cmd/textmapper/ls.go:transport)":                    "stub: simulated duplex byte pipe (fragmentation, EOF, EPIPE, torn frames from the tape); os.Stdin/os.Stdout selectors rewritten in an overlay copy of ls.go",
 			"LSP client":                                                       "stub: script generated from the tape; reference model = sequential execution in send order",
@@ -36,7 +36,7 @@ func init() {
 		rule: "One run = one generated client script (initialize + 2..40 of didOpen/didChange/didClose/didSave/definition/$/cancelRequest/unknown/shutdown over 1..3 URIs, documents = mutated grammars with non-ASCII text ahead of identifiers) delivered over the simulated pipe under a tape-chosen schedule (chunking of the byte stream x release order of parked writers x faults). " +
 			"A run is non-trivial when at least one publishDiagnostics was produced and checked. distinct_nontrivial counts distinct schedules = distinct sequences of (delivery kind | released writer kind | fault kind) among non-trivial runs; distinct_states counts distinct (unanswered changes, parked writers, answered changes, client-gone) tuples at quiescent points.",
 		assumptions: []string{
-			"a cancel can land before a handler body starts or after it, not in the middle of a body (no yield point inside compiler/parser code; C29 covers mid-parse cancellation)",
+			"a cancel can land before a handler body starts, after it, or at any cancellation poll the body makes on its request context (ctx.Done() is a yield point); between two polls the body cannot observe it anyway",
 			"one client, one ordered connection: the specification is sequential execution in send order",
 			"expected diagnostics = compiler.Compile on the same text (pure), byte offsets converted to UTF-16 by the harness's own arithmetic",
 			"a dead client (EPIPE) is permanent; content checks stop at the torn frame, crash/termination checks continue",
@@ -152,6 +152,22 @@ func patchJSONRPC2(cfg *config) (string, error) {
 	if err := os.WriteFile(p, b, 0o644); err != nil {
 		return "", err
 	}
+	// second seam: the per-request context, so that the simulator owns the instants at
+	// which a handler body can observe its cancellation
+	hp := filepath.Join(dst, "handler.go")
+	hb, err := os.ReadFile(hp)
+	if err != nil {
+		return "", err
+	}
+	const ctxSite = "ctx = cancelCtx\n"
+	if bytes.Count(hb, []byte(ctxSite)) != 1 {
+		return "", fmt.Errorf("seam not found: expected exactly one %q in %s", strings.TrimSpace(ctxSite), hp)
+	}
+	hb = bytes.Replace(hb, []byte(ctxSite), []byte(ctxSite+"\t\t\tif VerifWrapCtx != nil {\n\t\t\t\tctx = VerifWrapCtx(ctx, call.ID())\n\t\t\t}\n"), 1)
+	hb = append(hb, []byte("\n// VerifWrapCtx lets the simulator wrap the context of each call (scratch copy only).\nvar VerifWrapCtx func(ctx context.Context, id ID) context.Context\n")...)
+	if err := os.WriteFile(hp, hb, 0o644); err != nil {
+		return "", err
+	}
 	return dst, nil
 }
 
@@ -198,5 +214,13 @@ func prepareLS(cfg *config) ([]string, []string, map[string]any, error) {
 	if _, err := goRun(cfg.repo, "test", "-c", "-vet=off", "-overlay", ovPath, "-modfile", modfile, "-o", bin, "./cmd/textmapper"); err != nil {
 		return nil, nil, nil, err
 	}
-	return []string{bin, "-test.run=^TestZZLSSim$", "-test.timeout=0", "--"}, []string{"VERIF_REPO=" + cfg.repo}, map[string]any{}, nil
+	info := map[string]any{}
+	if cfg.race {
+		rbin := filepath.Join(cfg.scratch, "lssim-race.test")
+		if _, err := goRun(cfg.repo, "test", "-c", "-race", "-vet=off", "-overlay", ovPath, "-modfile", modfile, "-o", rbin, "./cmd/textmapper"); err != nil {
+			return nil, nil, nil, fmt.Errorf("-race build: %w", err)
+		}
+		info["alt_worker"] = []string{rbin, "-test.run=^TestZZLSSim$", "-test.timeout=0", "--"}
+	}
+	return []string{bin, "-test.run=^TestZZLSSim$", "-test.timeout=0", "--"}, []string{"VERIF_REPO=" + cfg.repo}, info, nil
 }
